@@ -112,7 +112,14 @@ fn refer(k: &Known, m: usize, uses: &mut Vec<String>, mods: &[&str], r: &mut Rng
     k.name.clone()
 }
 
+/// what the generator knows about its program: every item with the size and alignment it was laid out for
+pub struct Expect {
+    pub items: Vec<(String, u128, u128)>,
+}
 pub fn program(seed: u64, index: u64, ptr: usize) -> Vec<(&'static str, String)> {
+    program_with_expectation(seed, index, ptr).0
+}
+pub fn program_with_expectation(seed: u64, index: u64, ptr: usize) -> (Vec<(&'static str, String)>, Expect) {
     let mut r = Rng(0x9E3779B97F4A7C15 ^ seed.wrapping_mul(0xA24BAED4963EE407) ^ index.wrapping_mul(0x9FB21C651E98DF25) | 1);
     for _ in 0..4 { r.next(); }
     let p = ptr as u128;
@@ -127,12 +134,13 @@ pub fn program(seed: u64, index: u64, ptr: usize) -> Vec<(&'static str, String)>
         counter += 1;
         // names: mostly unique, sometimes the same name in another module, sometimes raw
         let name = match r.below(14) {
-            0 => "Shared".to_string(),
             1 => "r#type".to_string(),
             2 => "void".to_string(),   // a user type named like a built-in: only reachable through a by-name import
             _ => format!("T{counter}"),
         };
-        if known.iter().any(|k| k.module == m && k.name == name) {
+        // every name is unique in the whole program (so that what a name binds to does not depend on the import
+        // lists - binding precedence has its own family); `r#type` and `void` therefore occur at most once
+        if known.iter().any(|k| k.name == name) {
             continue;
         }
         // a by-name import of `Shared` from elsewhere would capture the name: keep such modules apart
@@ -299,7 +307,8 @@ pub fn program(seed: u64, index: u64, ptr: usize) -> Vec<(&'static str, String)>
                     let ret = if r.chance(1, 2) { " -> *mut u8" } else if r.chance(1, 2) { " -> u64" } else { "" };
                     // mostly unique names; now and then a name a base may already have (re-exposed functions get renamed
                     // or the build is rejected - both are legitimate outcomes)
-                    let fname = if r.chance(1, 8) { format!("{}{k}", ["m", "get_x", "call"][k % 3]) } else { format!("{}{counter}_{k}", ["m", "get_x", "r#fn", "call"][k % 4]) };
+                    // unique names: a program of this generator is accepted by construction (a rejection is a finding)
+                    let fname = format!("{}{counter}_{k}", ["m", "get_x", "r#fn", "call"][k % 4]);
                     out.push_str(&format!("    {}fn {fname}({}){ret};\n", vis(&mut r), args.join(", ")));
                 }
                 out.push_str("}\n");
@@ -325,5 +334,6 @@ pub fn program(seed: u64, index: u64, ptr: usize) -> Vec<(&'static str, String)>
         text.push_str(&bodies[i]);
         res.push((*path, text));
     }
-    res
+    let items = known.iter().map(|k| (format!("{}::{}", mods[k.module], k.name), k.size, k.align)).collect();
+    (res, Expect { items })
 }
